@@ -30,7 +30,7 @@ func init() {
 			if tier == "quick" {
 				return 48
 			}
-			return 160
+			return 600
 		},
 		Batch:            6,
 		Workers:          8,
